@@ -146,6 +146,7 @@ class Interp:
         self.hooks: dict[str, Callable] = {}       # function fullname -> handler(interp, func, args, kwargs)
         self.natives: dict[str, Any] = {}          # dotted name -> value
         self.loop_specs: dict[tuple, Any] = {}     # (fullname, ordinal) -> spec handler
+        self.comp_specs: dict[tuple, Any] = {}     # (fullname, comprehension ordinal) -> contract of a comprehension / generator expression
         self.cls_overlay: dict[tuple, Any] = {}    # (id(ClassVal), name) -> value written at run time
         self.on_await: Optional[Callable] = None   # hook(interp, value) for awaiting non-coroutines
         self.on_call_unknown: Optional[Callable] = None
@@ -1117,6 +1118,29 @@ class Interp:
             env.func._loop_ordinals = m
         return m.get(id(node), -1)
 
+    def comp_ordinal(self, env, node) -> int:
+        if env.func is None:
+            return -1
+        m = getattr(env.func, '_comp_ordinals', None)
+        if m is None:
+            m = {}
+
+            def walk(n):
+                for ch in ast.iter_child_nodes(n):
+                    if isinstance(ch, (ast.FunctionDef, ast.AsyncFunctionDef, ast.Lambda, ast.ClassDef)):
+                        continue
+                    if isinstance(ch, (ast.ListComp, ast.SetComp, ast.GeneratorExp, ast.DictComp)):
+                        m[id(ch)] = len(m)
+                    walk(ch)
+            walk(env.func.node)
+            env.func._comp_ordinals = m
+        return m.get(id(node), -1)
+
+    def comp_spec(self, node, env):
+        if not self.comp_specs or env.func is None:
+            return None
+        return self.comp_specs.get((env.func.fullname, self.comp_ordinal(env, node)))
+
     def st_While(self, node, env):
         ordinal = self.loop_ordinal(env, node)
         spec = self.loop_specs.get((env.func.fullname if env.func else '', ordinal))
@@ -1305,7 +1329,11 @@ class Interp:
         out = []
         for e in elts:
             if isinstance(e, ast.Starred):
-                out.extend(self.iterate(self.eval(e.value, env)))
+                v = self.eval(e.value, env)
+                if hasattr(v, 'pyvc_star'):
+                    out.append(StarArg(v))          # *abstract_collection: handed to the callee as one marker
+                else:
+                    out.extend(self.iterate(v))
             else:
                 out.append(self.eval(e, env))
         return out
@@ -1561,6 +1589,9 @@ class Interp:
         rec(0)
 
     def ex_ListComp(self, node, env):
+        spec = self.comp_spec(node, env)
+        if spec is not None:
+            return spec(self, node, env)
         out = []
         self._comp(node, env, lambda e: out.append(self.eval(node.elt, e)))
         return out
@@ -1569,6 +1600,9 @@ class Interp:
         return self.ex_ListComp(node, env)
 
     def ex_SetComp(self, node, env):
+        spec = self.comp_spec(node, env)
+        if spec is not None:
+            return spec(self, node, env)
         out = []
         if getattr(self, 'sym_containers', False):
             import z3 as _z3
@@ -1579,6 +1613,9 @@ class Interp:
         return set(out)
 
     def ex_DictComp(self, node, env):
+        spec = self.comp_spec(node, env)
+        if spec is not None:
+            return spec(self, node, env)
         out = {}
 
         def emit(e):
@@ -1599,6 +1636,13 @@ class Interp:
 
 class _Missing:
     pass
+
+
+class StarArg:
+    """`*obj` in a call where obj is an abstract collection of unknown length (obj.pyvc_star is True)"""
+
+    def __init__(self, obj):
+        self.obj = obj
 
 
 _MISSING = _Missing()
